@@ -38,6 +38,14 @@ def adversarial(rnd):
     for n in (10, 100, 1000, 5000, 8191, 8192, 8193, 9000, 20000):
         add("+".join(["1"] * n), "long-sum", ("value", str(n)))
         add(";".join(["1"] * (n // 2)) + ";7", "long-seq", ("value", "7"))
+    # the same capacity inside the separate instruction buffers of function bodies, computed values and template blocks
+    for n in (4090, 4201, 9000):
+        big = "+".join(["1"] * n)
+        add(f"func g0() {{ {big} }}; g0()", "long-sum-in-function", ("value", str(n)))
+        add(f"func g0() {{ {big} }}; 7", "long-sum-in-uncalled-function", ("value", "7"))
+        add(f"&va = {big}; va", "long-sum-in-computed", ("value", str(n)))
+        add(f"x = `{{% {big} %}}`; x", "long-sum-in-template", ("value", str(n)))
+        add(f"func g0() {{ func g1() {{ {big} }}; g1() }}; g0()", "long-sum-in-nested-function", ("value", str(n)))
     for n in (19, 20, 21, 22, 30):
         add("if 1 {" * n + "5" + "}" * n, "nested-if", "any")
         t = "5"
@@ -118,28 +126,34 @@ def work_programs(rnd, n):
     return out
 
 
-def run_cases(cases, timeout=120, mem_kb=4_000_000):
+def run_cases(cases, timeout=120, mem_kb=4_000_000, chunk=25):
+    """Runs the cases in chunks of `chunk`, each chunk in its own child process with `timeout` seconds for the WHOLE chunk (a single
+    case legitimately takes up to ~2 s: parsing a 16 KB source): a chunk that does not finish blames the case after the last
+    result and goes on behind it."""
     exe = os.path.join(common.BIN, "harness")
-    rows, pos = [None] * len(cases), 0
+    rows = [None] * len(cases)
     fatal = {}
-    while pos < len(cases):
-        stdin = "\n".join(json.dumps(c) for c in cases[pos:]) + "\n"
-        try:
-            r = subprocess.run(["bash", "-c", f"ulimit -v {mem_kb}; exec {exe} c07"], input=stdin, capture_output=True, text=True, timeout=timeout)
-            got = [json.loads(l) for l in r.stdout.splitlines() if l.startswith("{")]
-            why = None
-            if r.returncode != 0 or len(got) < len(cases) - pos:
-                why = next((l for l in r.stderr.splitlines() if "fatal error" in l or "out of memory" in l), "process died")[:160]
-        except subprocess.TimeoutExpired as e:
-            o = e.stdout.decode() if isinstance(e.stdout, bytes) else (e.stdout or "")
-            got = [json.loads(l) for l in o.splitlines() if l.startswith("{")]
-            why = f"no result within {timeout}s"
-        for j, g in enumerate(got):
-            rows[pos + j] = g
-        if why is None:
-            break
-        fatal[pos + len(got)] = why
-        pos += len(got) + 1
+    for lo in range(0, len(cases), chunk):
+        hi = min(len(cases), lo + chunk)
+        pos = lo
+        while pos < hi:
+            stdin = "\n".join(json.dumps(c) for c in cases[pos:hi]) + "\n"
+            try:
+                r = subprocess.run(["bash", "-c", f"ulimit -v {mem_kb}; exec {exe} c07"], input=stdin, capture_output=True, text=True, timeout=timeout)
+                got = [json.loads(l) for l in r.stdout.splitlines() if l.startswith("{")]
+                why = None
+                if r.returncode != 0 or len(got) < hi - pos:
+                    why = next((l for l in r.stderr.splitlines() if "fatal error" in l or "out of memory" in l), "process died")[:160]
+            except subprocess.TimeoutExpired as e:
+                o = e.stdout.decode() if isinstance(e.stdout, bytes) else (e.stdout or "")
+                got = [json.loads(l) for l in o.splitlines() if l.startswith("{")]
+                why = f"no result within {timeout}s (chunk of {hi - pos} cases)"
+            for j, g in enumerate(got):
+                rows[pos + j] = g
+            if why is None:
+                break
+            fatal[pos + len(got)] = why
+            pos += len(got) + 1
     return rows, fatal
 
 
